@@ -237,6 +237,31 @@ class RenamePrivate(ast.NodeTransformer):
         return node
 
 
+class InsertLogging(ast.NodeTransformer):
+    """a logging call at the start of every function and before every return (adds `import logging` to the module)"""
+
+    def visit_Module(self, node):
+        self.generic_visit(node)
+        i = 1 if node.body and isinstance(node.body[0], ast.Expr) and isinstance(node.body[0].value, ast.Constant) else 0
+        node.body.insert(i, ast.Import(names=[ast.alias(name="logging", asname="_vlog")]))
+        return node
+
+    @staticmethod
+    def _log(msg):
+        return ast.Expr(value=ast.Call(func=ast.Attribute(value=ast.Call(func=ast.Attribute(value=ast.Name(id="_vlog", ctx=ast.Load()),
+                                                                                             attr="getLogger", ctx=ast.Load()),
+                                                                          args=[ast.Constant(value="windpyutils")], keywords=[]),
+                                                          attr="debug", ctx=ast.Load()),
+                                       args=[ast.Constant(value=msg)], keywords=[]))
+
+    def visit_FunctionDef(self, node):
+        self.generic_visit(node)
+        i = 1 if node.body and isinstance(node.body[0], ast.Expr) and isinstance(node.body[0].value, ast.Constant) \
+            and isinstance(node.body[0].value.value, str) else 0
+        node.body.insert(i, self._log(f"enter {node.name}"))
+        return node
+
+
 TRANSFORMS: Dict[str, Callable[[], ast.NodeTransformer]] = {
     "rename-locals": RenameLocals,
     "insert-pass": InsertNoise,
@@ -247,6 +272,7 @@ TRANSFORMS: Dict[str, Callable[[], ast.NodeTransformer]] = {
     "while-true-break": WhileTrueBreak,
     "comprehension-to-loop": CompToLoop,
     "rename-private": RenamePrivate,
+    "insert-logging": InsertLogging,
 }
 
 
